@@ -1209,3 +1209,84 @@ func globalScratch(p *load.Prog, r *oblig.Run, rule string) {
 		o.Fail("the package-level variable " + k + " is written at run time (" + strings.Join(where, "; ") + "): it is shared by every caller of that function - concurrent callers (the workers of Compare and of the publisher) overwrite each other's value and a function of two dates/strings answers with a mix of both calls (wrong relation, score of another pair), apart from the data race")
 	}
 }
+
+// bitMarks (R07.k / R12.l): a set of list positions is not kept in a machine word. A shift `1 << i` whose count
+// is a position in a list (a loop counter bounded by len(...), a range index) wraps to nothing from position 64
+// on: positions beyond it are never marked, so a right-hand child / a character of the other string can be paired
+// twice - equality and similarity become asymmetric for long lists and long strings only.
+func bitMarks(p *load.Prog, r *oblig.Run, rule string) {
+	r.Rule(rule, "no set of list positions is kept as bits of a machine word (a shift by a list index wraps from position 64 on)", 0)
+	n := 0
+	for _, fn := range p.Repo {
+		if pkgPathOf(fn) != load.PkgRoot {
+			continue
+		}
+		for _, b := range fn.Blocks {
+			for _, ins := range b.Instrs {
+				bo, ok := ins.(*ssa.BinOp)
+				if !ok || bo.Op != token.SHL {
+					continue
+				}
+				if _, isK := bo.Y.(*ssa.Const); isK {
+					continue
+				}
+				// the count: a position in a list?
+				v := bo.Y
+				for i := 0; i < 4; i++ {
+					if cv, ok := v.(*ssa.Convert); ok {
+						v = cv.X
+					} else if ct, ok := v.(*ssa.ChangeType); ok {
+						v = ct.X
+					}
+				}
+				listIndex := false
+				var walk func(x ssa.Value, d int)
+				seen := map[ssa.Value]bool{}
+				walk = func(x ssa.Value, d int) {
+					if d > 6 || seen[x] || x.Referrers() == nil {
+						return
+					}
+					seen[x] = true
+					for _, ref := range *x.Referrers() {
+						switch y := ref.(type) {
+						case *ssa.BinOp:
+							if y.Op == token.LSS || y.Op == token.GEQ {
+								if of, isLen := lenArg(y.Y); isLen && of != nil {
+									listIndex = true
+								}
+							}
+							if y.Op == token.ADD {
+								walk(y, d+1)
+							}
+						case *ssa.Phi:
+							walk(y, d+1)
+						case *ssa.IndexAddr:
+							if y.Index == x {
+								listIndex = true
+							}
+						case *ssa.Index:
+							if y.Index == x {
+								listIndex = true
+							}
+						}
+					}
+				}
+				walk(v, 0)
+				if ph, isPhi := v.(*ssa.Phi); isPhi {
+					for _, e := range ph.Edges {
+						walk(e, 1)
+					}
+				}
+				if !listIndex {
+					continue
+				}
+				n++
+				r.Add(rule, fmt.Sprintf("shift by a list position in %s #%d", load.FuncName(fn), n), p.Pos(bo.Pos()), "bit set over list positions").
+					Fail("a bit mask is indexed by a position in a list (shift count " + bo.Y.Name() + " is a list index): for positions 64 and above the shift gives 0, nothing is marked and the same element can be used twice - lists/strings longer than 64 compare differently from short ones (and differently in the two directions)")
+			}
+		}
+	}
+	if n == 0 {
+		r.Add(rule, "bit sets over list positions", "-", "scan of the library package").OK("no shift by a list position in the library package")
+	}
+}
